@@ -116,9 +116,18 @@ def project_case(proj: Dict[str, Any]) -> Tuple[Dict[str, str], bool, bool, bool
     if proj['extra'].get('second_root') and rexproj.exporter_of(proj, proj['impl'][0]['defs'][0]['name']):
         stale = True
     star_on_cycle = cyclic and (any(e['form'] == 'star' for e in proj['exports']) or bool(proj['extra'].get('star_consumer')))
-    # the generated cycle runs through p._a (it imports p.api and p.c1): a re-export of one of its names may happen
-    # while p._a is still being analysed, leaving an alias where another order moves the object
-    reexport_on_cycle = cyclic and any(e['from'] == '_a' for e in proj['exports'])
+    # the generated cycle runs through p._a (it imports p.api and p.c1) and through every implementation module that
+    # imports a base class from a module on the cycle: a re-export of one of their names may happen while the defining
+    # module is still being analysed, leaving an alias where another order moves the object
+    on_cycle = {'_a'}
+    grew = True
+    while grew:
+        grew = False
+        for im in proj['impl']:
+            if im['mod'] not in on_cycle and any(bm in on_cycle for d in im['defs'] for bm, _bn in d['bases']):
+                on_cycle.add(im['mod'])
+                grew = True
+    reexport_on_cycle = cyclic and any(e['from'] in on_cycle for e in proj['exports'])
     return files, cyclic, stale, star_on_cycle, reexport_on_cycle
 
 
